@@ -89,9 +89,22 @@ func cField(b []byte) string {
 }
 
 // ---- C13 ----
+// every third decode goes into a value that earlier decodes (successful or refused) have already
+// filled: the result must depend on the byte stream only, not on what the receiver held before
+var (
+	c13PrevReq  = &Request{Login: "previous-login", Password: "previous-password", Service: "previous-service", Realm: "previous-realm"}
+	c13PrevResp = &Response{true, "previous message"}
+	c13Count    int
+)
+
 func c13DecReq(em *vEmitter, evs []vEv, class string) {
 	rd := &vScriptReader{evs: cloneEvs(evs)}
 	req := &Request{}
+	c13Count++
+	if c13Count%3 == 0 {
+		req = c13PrevReq
+		class += "/reused-value"
+	}
 	err := req.Decode(rd)
 	var out string
 	if err != nil {
@@ -107,6 +120,11 @@ func c13DecReq(em *vEmitter, evs []vEv, class string) {
 func c13DecResp(em *vEmitter, evs []vEv, class string) {
 	rd := &vScriptReader{evs: cloneEvs(evs)}
 	resp := &Response{false, ""}
+	c13Count++
+	if c13Count%3 == 0 {
+		resp = c13PrevResp
+		class += "/reused-value"
+	}
 	err := resp.Decode(rd)
 	out := "None"
 	if err == nil {
